@@ -55,29 +55,32 @@ HttpTransparent(sigs, D) == \A o \in HttpObs : SelectBest(HttpCandidates(sigs, o
 \* anti-vacuity: the invariant can fail -- it does for the recorded defect
 ASSUME \E i \in 0..(NH - 1) : ~HttpTransparent(<<HttpSigAt(i)>>, {"D02_http_any_10_11"})
 
-\* ---- B: text of a database; grouping g: 0 = one label per signature, 1 = all under one label, 2 = first two share a label
+\* ---- B: text of a database; grouping g: 0 = one label per signature, 1 = all under one label, 2 = first two share a label, 3 / 4 = with labels that have no signatures
 Lbl(n) == "label = s:unix:Os" \o ToString(n) \o ":f" \o ToString(n)
+Empty(n) == "label = s:unix:Empty" \o ToString(n) \o ":none"
 RECURSIVE Lines(_, _, _, _)
 Lines(texts, g, k, acc) ==
   IF k > Len(texts) THEN acc
-  ELSE LET newlabel == (k = 1) \/ g = 0 \/ (g = 2 /\ k = 3)
-       IN Lines(texts, g, k + 1, acc \o (IF newlabel THEN <<Lbl(k)>> ELSE <<>>) \o <<"sig = " \o texts[k]>>)
+  ELSE LET newlabel == (k = 1) \/ g \in {0, 3, 4} \/ (g = 2 /\ k = 3)
+           \* labels without any signature line: before every label (g = 3), between the first two entries (g = 4)
+           empties == IF (g = 3 /\ newlabel) \/ (g = 4 /\ k = 2) THEN <<Empty(k)>> ELSE <<>>
+       IN Lines(texts, g, k + 1, acc \o empties \o (IF newlabel THEN <<Lbl(k)>> ELSE <<>>) \o <<"sig = " \o texts[k]>>)
 DbText(section, texts, g) == Join(<<"[" \o section \o "]">> \o Lines(texts, g, 1, <<>>), "\n") \o "\n"
 
 TcpObsSeq == SetToSeq(TcpObs)
 HttpObsSeq == SetToSeq(HttpObs)
 EmitTcp(i) ==
   LET sigs == [k \in 1..Len(DbAt(NT, i)) |-> TcpSigAt(DbAt(NT, i)[k])]
-      g == i % 3
-      table == IF (i \div 3) % 2 = 0 THEN "tcp_request" ELSE "tcp_response"
+      g == i % 5
+      table == IF (i \div 5) % 2 = 0 THEN "tcp_request" ELSE "tcp_response"
   IN TcpTransparent(sigs) /\
      PrintT("REPLAY " \o ToJson([kind |-> "tcp", i |-> i, table |-> table, g |-> g,
               db |-> DbText(IF table = "tcp_request" THEN "tcp:request" ELSE "tcp:response", [k \in 1..Len(sigs) |-> PrintTcpSig(sigs[k])], g),
               sver |-> [k \in 1..Len(sigs) |-> sigs[k].ver], obs |-> TcpObsSeq]))
 EmitHttp(i) ==
   LET sigs == [k \in 1..Len(DbAt(NH, i)) |-> HttpSigAt(DbAt(NH, i)[k])]
-      g == i % 3
-      table == IF (i \div 3) % 2 = 0 THEN "http_request" ELSE "http_response"
+      g == i % 5
+      table == IF (i \div 5) % 2 = 0 THEN "http_request" ELSE "http_response"
   IN HttpTransparent(sigs, {}) /\
      PrintT("REPLAY " \o ToJson([kind |-> "http", i |-> i, table |-> table, g |-> g,
               db |-> DbText(IF table = "http_request" THEN "http:request" ELSE "http:response", [k \in 1..Len(sigs) |-> PrintHttpSig(sigs[k])], g),
